@@ -403,7 +403,7 @@ def main(argv=None):
                         candidates.append(dict(scenario=scn.name, label="*", inputs=inputs, kind="probe", exact={k: v[0] for k, v in p["sample"].items()}))
             any_solver_ob = False
             for ob in p["obligations"]:
-                is_twin = scn.twin or ob["expect"] == "sat"
+                is_twin = ob["expect"] == "sat"
                 if is_twin:
                     key = (scn.name, re.sub(r"\[\d+\]$", "", ob["label"]))
                     twin_state.setdefault(key, []).append(ob["status"])
@@ -415,6 +415,10 @@ def main(argv=None):
                     any_solver_ob = True
                 if ob["status"] == "discharged":
                     cnt["discharged"] += 1
+                elif ob["status"] == "refuted" and not getattr(scn, "replayable", True):
+                    # e.g. an inductive step from an arbitrary (possibly unreachable) pre-state: not a finding by itself
+                    cnt["inconclusive"] += 1
+                    inconc_list.append("%s: %s refuted from a symbolic pre-state (not replayable; confirmed only if a bounded history reproduces it)" % (scn.name, ob["label"]))
                 elif ob["status"] == "refuted":
                     cnt["refuted"] += 1
                     if ob.get("model") is not None:
